@@ -123,9 +123,18 @@ def build_comp(spec):
     return gens.build_leaf(spec)
 
 
-def lean_request(prog, objs):
+def snapshot_mats(comps, objs):
+    """the leaves' own numeric matrices *now* (a parameter may change later): None for a loss channel"""
+    out = []
+    for (r0, spec), obj in zip(comps, objs):
+        out.append(None if spec["t"] == "LC" else
+                   np.array(obj.compute_unitary(use_symbolic=False), dtype=complex))
+    return out
+
+
+def lean_request(prog, mats):
     comps = []
-    for (r0, spec), obj in zip(prog["comps"], objs):
+    for (r0, spec), mat in zip(prog["comps"], mats):
         if spec["t"] == "LC":
             if "loss" in spec:
                 comps.append({"r": r0, "lc": ["0", "0"], "loss": spec["loss"]})
@@ -134,7 +143,9 @@ def lean_request(prog, objs):
                                               core.rat(Fraction(spec["b"], spec["h"]))],
                               "loss": core.rat(lc_loss(spec))})
         else:
-            comps.append({"r": r0, "k": obj.m, "U": gens.leaf_matrix_json(obj)})
+            if mat is None:
+                raise ValueError("no matrix for a unitary component")
+            comps.append({"r": r0, "k": int(mat.shape[0]), "U": core.mat(mat.tolist())})
     return {"op": "probs", "m": prog["m"] if prog["mode"] == "processor" else None, "comps": comps,
             "inputs": prog["inputs"]}
 
@@ -143,48 +154,69 @@ def bsd_to_dict(bsd):
     return {tuple(int(x) for x in k): float(v) for k, v in bsd.items()}
 
 
+REAL_ERRORS = (AssertionError, ValueError, RuntimeError, TypeError, IndexError, KeyError)
+
+
+def is_repo_error(e):
+    return isinstance(e, REAL_ERRORS) or type(e).__module__.startswith(("perceval", "exqalibur"))
+
+
+def query_processor(p, inputs):
+    import perceval as pcvl
+    runs = []
+    for s in inputs:
+        p.with_input(pcvl.BasicState(s))
+        res = p.probs(precision=0)        # 2nd and later calls reuse the cached simulator (set_circuit path)
+        runs.append({"input": s, "via": "Processor.probs", "results": bsd_to_dict(res["results"]),
+                     "physical_perf": float(res["physical_perf"]), "logical_perf": float(res["logical_perf"])})
+    return runs
+
+
+def query_simulator(sim, inputs, f):
+    import perceval as pcvl
+    runs = []
+    for s in inputs:
+        # unfiltered distribution through probs(BasicState)
+        sim.set_min_detected_photons_filter(0)
+        d0 = bsd_to_dict(sim.probs(pcvl.BasicState(s)))
+        runs.append({"input": s, "via": "build(list).probs", "results": d0, "physical_perf": None,
+                     "logical_perf": None, "filter": 0})
+        sim.set_min_detected_photons_filter(f)
+        res = sim.probs_svd(pcvl.SVDistribution(pcvl.BasicState(s)))
+        runs.append({"input": s, "via": "build(list).probs_svd", "results": bsd_to_dict(res["results"]),
+                     "physical_perf": float(res["physical_perf"]), "logical_perf": float(res["logical_perf"])})
+    return runs
+
+
 def observe(prog):
-    """Run the real code.  -> {"err": cls} or {"runs": [ {input, results, physical_perf, logical_perf} ], "objs": [...] }"""
+    """Run the real code on a fresh object.
+    -> {"err": cls, "mats"} or {"runs": [ {input, results, physical_perf, logical_perf} ], "mats": [...], "layer"}"""
     import perceval as pcvl
     from perceval.simulators import SimulatorFactory
     objs = []
+    mats = []
     try:
         for r0, spec in prog["comps"]:
             objs.append(build_comp(spec))
-        runs = []
+        mats = snapshot_mats(prog["comps"], objs)
         f = prog["filter"]
         if prog["mode"] == "processor":
             p = pcvl.Processor(prog["backend"], prog["m"])
             for (r0, spec), obj in zip(prog["comps"], objs):
                 p.add(r0, obj)
             p.min_detected_photons_filter(f)
-            for s in prog["inputs"]:
-                p.with_input(pcvl.BasicState(s))
-                res = p.probs(precision=0)        # 2nd and later inputs reuse the cached simulator (set_circuit path)
-                runs.append({"input": s, "via": "Processor.probs", "results": bsd_to_dict(res["results"]),
-                             "physical_perf": float(res["physical_perf"]), "logical_perf": float(res["logical_perf"])})
+            runs = query_processor(p, prog["inputs"])
             layer = None
         else:
             lst = [(tuple(range(r0, r0 + obj.m)), obj) for (r0, spec), obj in zip(prog["comps"], objs)]
             sim = SimulatorFactory.build(lst, prog["backend"])
             sim.set_precision(0)
             layer = type(sim).__name__
-            for s in prog["inputs"]:
-                # unfiltered distribution through probs(BasicState)
-                sim.set_min_detected_photons_filter(0)
-                d0 = bsd_to_dict(sim.probs(pcvl.BasicState(s)))
-                runs.append({"input": s, "via": "build(list).probs", "results": d0, "physical_perf": None,
-                             "logical_perf": None, "filter": 0})
-                sim.set_min_detected_photons_filter(f)
-                res = sim.probs_svd(pcvl.SVDistribution(pcvl.BasicState(s)))
-                runs.append({"input": s, "via": "build(list).probs_svd", "results": bsd_to_dict(res["results"]),
-                             "physical_perf": float(res["physical_perf"]), "logical_perf": float(res["logical_perf"])})
-        return {"runs": runs, "objs": objs, "layer": layer}
-    except (AssertionError, ValueError, RuntimeError, TypeError, IndexError, KeyError) as e:
-        return {"err": type(e).__name__, "msg": str(e)[:200], "objs": objs}
-    except Exception as e:   # perceval's own exception classes (UnavailableModeException, ...)
-        if type(e).__module__.startswith("perceval") or type(e).__module__.startswith("exqalibur"):
-            return {"err": type(e).__name__, "msg": str(e)[:200], "objs": objs}
+            runs = query_simulator(sim, prog["inputs"], f)
+        return {"runs": runs, "mats": mats, "layer": layer}
+    except Exception as e:   # incl. perceval's own exception classes (UnavailableModeException, ...)
+        if is_repo_error(e):
+            return {"err": type(e).__name__, "msg": str(e)[:200], "mats": mats}
         raise
 
 
@@ -239,7 +271,7 @@ def all_states(m, n):
     return out
 
 
-def oracle_matrix(prog, objs):
+def oracle_matrix(prog, mats):
     """the property's enlarged lossless circuit: original components where they were placed; each channel a
     BS.H-type block [[c, s], [s, -c]] on (its mode, its own fresh mode)"""
     if prog["mode"] == "processor":
@@ -250,16 +282,19 @@ def oracle_matrix(prog, objs):
     N = M + n_lc
     u = np.eye(N, dtype=complex)
     fresh = M
-    for (r0, spec), obj in zip(prog["comps"], objs):
+    for (r0, spec), mat in zip(prog["comps"], mats):
         e = np.eye(N, dtype=complex)
         if spec["t"] == "LC":
             loss = float(lc_loss(spec))
             c, s = math.sqrt(1 - loss), math.sqrt(loss)
             e[r0, r0], e[r0, fresh], e[fresh, r0], e[fresh, fresh] = c, s, s, -c
             fresh += 1
+        elif spec["t"] == "PS":
+            # from the specification value, not from the (possibly parametrised, long-lived) object
+            e[r0, r0] = complex(float(Fraction(spec["phi"][0])), float(Fraction(spec["phi"][1])))
         else:
-            k = obj.m
-            e[r0:r0 + k, r0:r0 + k] = np.array(obj.compute_unitary(use_symbolic=False), dtype=complex)
+            k = mat.shape[0]
+            e[r0:r0 + k, r0:r0 + k] = mat
         u = e @ u
     return u, M, N
 
@@ -281,10 +316,14 @@ def oracle_dist(u, M, N, s):
 
 # ------------------------------------------------------------------------------------------------
 def judge(chk, prog):
-    """-> None or (kind, signature, what)"""
-    obs = observe(prog)
+    """a fresh Processor / simulator for this program -> None or (kind, signature, what)"""
+    return judge_obs(chk, prog, observe(prog))
+
+
+def judge_obs(chk, prog, obs):
+    """`obs`: what the real code answered for the (effective) program `prog` -> None or (kind, signature, what)"""
     try:
-        req = lean_request(prog, obs["objs"] + [None] * (len(prog["comps"]) - len(obs["objs"])))
+        req = lean_request(prog, obs["mats"] + [None] * (len(prog["comps"]) - len(obs["mats"])))
     except Exception:
         req = None
     if "err" in obs:
@@ -337,7 +376,7 @@ def judge(chk, prog):
             return ("violation", "not-normalised",
                     f"{run['via']} returned a distribution of total mass {sum(run['results'].values())!r}")
         if umat is None:
-            umat = oracle_matrix(prog, obs["objs"])
+            umat = oracle_matrix(prog, obs["mats"])
         od = oracle_dist(*umat, run["input"])
         odf = {k: Fraction(*float(v).as_integer_ratio()) for k, v in od.items()}
         oprobs = compare_run(run, odf, f, rep["M"], 1e-7)
@@ -495,6 +534,402 @@ def handle(chk, prog):
 
 
 # ------------------------------------------------------------------------------------------------
+# sessions: ONE long-lived Processor / simulator queried several times while its loss (a variable Parameter), a
+# phase, the component list, the photon filter or the input change between the queries.  Every answer must be
+# the distribution of the enlarged lossless circuit for the values *at the time of the query*
+# (Lean: `session_history_independent`).
+# ------------------------------------------------------------------------------------------------
+BAD_LOSS = ["3/2", "-1/10", "101/100"]
+
+
+def lc_value(spec):
+    return {"a": spec["a"], "b": spec["b"], "h": spec["h"]}
+
+
+def comps_M(comps):
+    return max(r0 + width(c) for r0, c in comps)
+
+
+def gen_session(rng, chk, max_lc=3):
+    prog = gen_program(rng, chk, max_m=4, max_lc=max_lc, max_n=3)
+    m, mode, comps = prog["m"], prog["mode"], prog["comps"]
+    M = m if mode == "processor" else comps_M(comps)
+    lcs = [i for i, (_, c) in enumerate(comps) if c["t"] == "LC"]
+    forced = rng.choice(lcs)
+    first = {}                 # variable name -> the spec that carries its initial value
+    for i, (r0, c) in enumerate(comps):
+        if c["t"] == "LC" and (i == forced or rng.random() < 0.5):
+            lvars = [v for v in first if v.startswith("eta")]
+            if lvars and rng.random() < 0.3:      # one Parameter shared by several channels
+                c["var"] = rng.choice(lvars)
+                c.update(lc_value(first[c["var"]]))
+            else:
+                c["var"] = f"eta{i}"
+                first[c["var"]] = c
+        elif c["t"] == "PS" and rng.random() < 0.6:
+            c["var"] = f"phi{i}"
+            first[c["var"]] = c
+
+    if not any(v.startswith("phi") for v in first) and rng.random() < 0.4:
+        i = rng.randint(0, len(comps))
+        c = {"t": "PS", "phi": gens.gen_cs(rng), "var": f"phi_{len(comps)}"}
+        comps.insert(i, [rng.randrange(M), c])
+        first[c["var"]] = c
+
+    def new_inputs():
+        out = []
+        for _ in range(rng.randint(1, 2)):
+            sst = [0] * M
+            for _ in range(rng.choice([1, 2, 2, 3])):
+                sst[rng.randrange(M)] += 1
+            if sst not in out:
+                out.append(sst)
+        return out
+
+    def new_comp(cur):
+        if rng.random() < 0.6:
+            c = gen_lc(rng)
+            lvars = sorted({x["var"] for _, x in cur if x["t"] == "LC" and "var" in x})
+            if lvars and rng.random() < 0.3:
+                c["var"] = rng.choice(lvars)      # the value is the variable's current one (fixed up when run)
+            return [rng.randrange(M), c]
+        leaf = gens.gen_leaf(rng, M, kinds=("BS", "PS", "PERM", "U") if M >= 2 else ("PS", "U"))
+        return [rng.randint(0, M - gens.leaf_width(leaf)), leaf]
+
+    prog["inputs"] = new_inputs()
+    cur = copy.deepcopy(comps)
+    steps = []
+    names = sorted(first)
+    for k in range(rng.randint(1, 4)):
+        r = rng.random()
+        lvars = [v for v in names if v.startswith("eta")]
+        if k == 0 and r < 0.7 or r < 0.45:
+            v = rng.choice(lvars) if (rng.random() < 0.75 or len(lvars) == len(names)) else \
+                rng.choice([x for x in names if not x.startswith("eta")])
+            if v.startswith("eta"):
+                steps.append({"op": "set", "var": v, "lc": lc_value(gen_lc(rng))})
+            else:
+                steps.append({"op": "set", "var": v, "phi": gens.gen_cs(rng)})
+        elif r < 0.52:
+            steps.append({"op": "set-bad", "var": rng.choice(lvars), "loss": rng.choice(BAD_LOSS)})
+        elif r < 0.67:
+            c = new_comp(cur)
+            cur.append(c)
+            steps.append({"op": "add", "comp": c})
+        elif r < 0.75:
+            steps.append({"op": "filter", "value": rng.choice([0, 1, 2])})
+        elif r < 0.83:
+            steps.append({"op": "inputs", "inputs": new_inputs()})
+        elif r < 0.90 or mode == "processor":
+            steps.append({"op": "query", "reset": rng.random() < 0.6})
+        else:
+            i = rng.randrange(len(cur))
+            if rng.random() < 0.6:
+                c = new_comp(cur)
+                cand = cur[:i] + [c] + cur[i + 1:]
+                st = {"op": "replace", "index": i, "comp": c}
+            else:
+                cand = cur[:i] + cur[i + 1:]
+                st = {"op": "remove", "index": i}
+            if cand and comps_M(cand) == M and any(x["t"] == "LC" for _, x in cand):
+                cur = cand
+                steps.append(st)
+            else:
+                steps.append({"op": "query", "reset": True})
+    return {"m": m, "mode": mode, "backend": prog["backend"], "comps": comps, "inputs": prog["inputs"],
+            "filter": prog["filter"], "steps": steps}
+
+
+class SessionState:
+    """the caller's view of a session: symbolic components + the current value of every variable"""
+
+    def __init__(self, sess):
+        self.comps = []
+        self.values = {}
+        self.filter = sess["filter"]
+        self.inputs = sess["inputs"]
+        for r0, spec in sess["comps"]:
+            self.declare(spec)
+            self.comps.append([r0, spec])
+
+    def declare(self, spec):
+        v = spec.get("var")
+        if v is not None and v not in self.values:
+            self.values[v] = lc_value(spec) if spec["t"] == "LC" else spec["phi"]
+
+    def effective(self):
+        out = []
+        for r0, spec in self.comps:
+            v = spec.get("var")
+            if v is None:
+                out.append([r0, spec])
+            elif spec["t"] == "LC":
+                out.append([r0, dict({"t": "LC"}, **self.values[v])])
+            else:
+                out.append([r0, {"t": "PS", "phi": self.values[v]}])
+        return out
+
+
+def observe_session(sess):
+    """Run the real code: one long-lived object.  -> {"queries": [{"prog", "obs", "history"}], "layer"}"""
+    import perceval as pcvl
+    from perceval.components import LC, PS
+    from perceval.simulators import SimulatorFactory
+    st = SessionState(sess)
+    params = {}
+    history = ["new"]
+    queries = []
+    mode = sess["mode"]
+
+    def set_param(v):
+        val = st.values[v]
+        params[v].set_value(float(lc_loss(val)) if v.startswith("eta") else gens.cs_angle(val))
+
+    def build(spec):
+        v = spec.get("var")
+        if v is None:
+            return build_comp(spec)
+        if v not in params:
+            params[v] = pcvl.P(v)
+            set_param(v)
+        return LC(params[v]) if spec["t"] == "LC" else PS(params[v])
+
+    def effective_prog():
+        return {"m": sess["m"], "mode": mode, "backend": sess["backend"], "comps": copy.deepcopy(st.effective()),
+                "inputs": list(st.inputs), "filter": st.filter, "malformed": None}
+
+    objs = []
+    target = {}
+
+    def query():
+        prog = effective_prog()
+        mats = []
+        try:
+            mats = snapshot_mats(prog["comps"], objs)
+            if mode == "processor":
+                runs = query_processor(target["p"], st.inputs)
+            else:
+                runs = query_simulator(target["sim"], st.inputs, st.filter)
+            obs = {"runs": runs, "mats": mats, "layer": target.get("layer")}
+        except Exception as e:
+            if not is_repo_error(e):
+                raise
+            obs = {"err": type(e).__name__, "msg": str(e)[:200], "mats": mats}
+        queries.append({"prog": prog, "obs": obs, "history": list(history)})
+        history.append("query")
+        return "err" not in obs
+
+    try:
+        for r0, spec in st.comps:
+            objs.append(build(spec))
+        if mode == "processor":
+            p = pcvl.Processor(sess["backend"], sess["m"])
+            for (r0, spec), obj in zip(st.comps, objs):
+                p.add(r0, obj)
+            p.min_detected_photons_filter(st.filter)
+            target["p"] = p
+        else:
+            lst = [(tuple(range(r0, r0 + obj.m)), obj) for (r0, spec), obj in zip(st.comps, objs)]
+            sim = SimulatorFactory.build(lst, sess["backend"])
+            sim.set_precision(0)
+            target["sim"] = sim
+            target["layer"] = type(sim).__name__
+    except Exception as e:
+        if not is_repo_error(e):
+            raise
+        queries.append({"prog": effective_prog(), "obs": {"err": type(e).__name__, "msg": str(e)[:200], "mats": []},
+                        "history": list(history)})
+        return {"queries": queries}
+    if not query():
+        return {"queries": queries}
+    for step in sess["steps"]:
+        op = step["op"]
+        reset = mode == "list"       # the owner of a list tells the simulator about it again
+        try:
+            if op == "set":
+                st.values[step["var"]] = step["lc"] if "lc" in step else step["phi"]
+                if step["var"] in params:
+                    set_param(step["var"])
+                history.append(f"{step['var']}.set_value")
+            elif op == "set-bad":
+                history.append(f"{step['var']}.set_value(out of range)")
+                reset = False
+                if step["var"] in params:
+                    try:
+                        params[step["var"]].set_value(float(Fraction(step["loss"])))
+                    except ValueError:
+                        pass
+                    else:
+                        queries.append({"prog": effective_prog(), "obs": {"accepted_bad": step["loss"]},
+                                        "history": list(history)})
+                        return {"queries": queries}
+            elif op == "add":
+                r0, spec = step["comp"]
+                st.declare(spec)
+                obj = build(spec)
+                if mode == "processor":
+                    target["p"].add(r0, obj)
+                    history.append("Processor.add")
+                else:
+                    lst.append((tuple(range(r0, r0 + obj.m)), obj))
+                    history.append("list.append")
+                st.comps.append([r0, spec])
+                objs.append(obj)
+            elif op == "replace" and mode == "list" and step["index"] < len(objs):
+                r0, spec = step["comp"]
+                st.declare(spec)
+                obj = build(spec)
+                i = step["index"]
+                lst[i] = (tuple(range(r0, r0 + obj.m)), obj)
+                st.comps[i] = [r0, spec]
+                objs[i] = obj
+                history.append("list[i] = ...")
+            elif op == "remove" and mode == "list" and step["index"] < len(objs) and len(objs) > 1:
+                i = step["index"]
+                del lst[i]
+                del st.comps[i]
+                del objs[i]
+                history.append("del list[i]")
+            elif op == "filter":
+                st.filter = step["value"]
+                reset = False
+                if mode == "processor":
+                    target["p"].min_detected_photons_filter(st.filter)
+                history.append("filter")
+            elif op == "inputs":
+                st.inputs = step["inputs"]
+                reset = False
+                history.append("input")
+            else:
+                reset = reset and bool(step.get("reset"))
+            if reset:
+                target["sim"].set_circuit(lst)
+                history.append("set_circuit(same list)")
+        except Exception as e:
+            if not is_repo_error(e):
+                raise
+            queries.append({"prog": effective_prog(), "obs": {"err": type(e).__name__, "msg": str(e)[:200],
+                                                              "mats": []}, "history": list(history)})
+            return {"queries": queries}
+        if not query():
+            break
+    return {"queries": queries}
+
+
+def judge_session(chk, sess):
+    """-> None or (kind, signature, what)"""
+    out = observe_session(sess)
+    for k, q in enumerate(out["queries"]):
+        if "accepted_bad" in q["obs"]:
+            return ("violation", "accepts-inadmissible-program",
+                    f"Parameter.set_value({q['obs']['accepted_bad']}) was accepted for the loss of an LC")
+        res = judge_obs(chk, q["prog"], q["obs"])
+        if res is None:
+            continue
+        kind, sig, what = res
+        hist = " -> ".join(q["history"])
+        if k > 0 and kind == "violation":
+            # is it the history?  the same program on a fresh object
+            try:
+                fresh = judge(chk, q["prog"])
+            except core.LeanError:
+                raise
+            if fresh is None:
+                return (kind, "loss-result-depends-on-history",
+                        f"long-lived {'Processor' if sess['mode'] == 'processor' else 'simulator'} after [{hist}]: "
+                        f"{what}; a fresh one gives the right answer for the same components and values")
+        return (kind, sig, f"after [{hist}]: {what}")
+    return None
+
+
+def shrink_session(chk, sess, sig):
+    def fails(x):
+        try:
+            r = judge_session(chk, x)
+        except core.LeanError:
+            raise
+        except Exception:
+            return False
+        return r is not None and r[1] == sig
+
+    cur = copy.deepcopy(sess)
+    for n in range(len(cur["steps"])):            # shortest failing prefix
+        cand = dict(cur, steps=cur["steps"][:n])
+        if fails(cand):
+            cur = cand
+            break
+    cur["steps"] = gens.shrink_list(cur["steps"], lambda ss: fails(dict(cur, steps=ss)), max_rounds=30)
+    for s in list(cur["inputs"]):
+        cand = dict(cur, inputs=[s])
+        if len(cur["inputs"]) > 1 and fails(cand):
+            cur = cand
+            break
+    if not any(st["op"] in ("replace", "remove") for st in cur["steps"]):
+        used = {st["var"] for st in cur["steps"] if "var" in st}
+
+        def f2(cs):
+            if not cs or (cur["mode"] == "list" and comps_M(cs) != len(cur["inputs"][0])):
+                return False
+            if not used <= {c.get("var") for _, c in cs}:
+                return False
+            return fails(dict(cur, comps=cs))
+        cur["comps"] = gens.shrink_list(cur["comps"], f2, max_rounds=40)
+    if cur["filter"]:
+        cand = dict(cur, filter=0)
+        if fails(cand):
+            cur = cand
+    return cur
+
+
+def handle_session(chk, sess):
+    ops = [st["op"] for st in sess["steps"]]
+    chk.count("session_mode", sess["mode"])
+    chk.count("session_steps", len(ops))
+    for o in ops:
+        chk.count("session_op", o)
+    lvars = [c["var"] for _, c in sess["comps"] if c["t"] == "LC" and "var" in c]
+    set_l = any(st["op"] == "set" and "lc" in st for st in sess["steps"])
+    if set_l and sess["mode"] == "processor":
+        chk.branch("session-loss-parameter-changed-processor")
+    if set_l and sess["mode"] == "list":
+        chk.branch("session-loss-parameter-changed-set-circuit-same-list")
+    if any(st["op"] == "set" and "phi" in st for st in sess["steps"]):
+        chk.branch("session-phase-parameter-changed")
+    if len(set(lvars)) < len(lvars):
+        chk.branch("session-shared-loss-parameter")
+    if "add" in ops and sess["mode"] == "processor":
+        chk.branch("session-processor-add-after-query")
+    if sess["mode"] == "list" and any(o in ("add", "replace", "remove") for o in ops):
+        chk.branch("session-list-edited-in-place")
+    if "filter" in ops:
+        chk.branch("session-filter-changed")
+    if "inputs" in ops:
+        chk.branch("session-input-changed")
+    if "set-bad" in ops:
+        chk.branch("session-out-of-range-loss-rejected")
+    if "query" in ops:
+        chk.branch("session-repeated-query")
+    res = judge_session(chk, sess)
+    chk.case(("session",) + signature(dict(sess, comps=[[r0, c] for r0, c in sess["comps"]]))
+             + (json.dumps(sess["steps"], sort_keys=True),),
+             nontrivial=any(o in ("set", "add", "replace", "remove") for o in ops),
+             sample={"session": sess["mode"], "m": sess["m"],
+                     "comps": [(r0, c["t"], c.get("var")) for r0, c in sess["comps"]][:8], "steps": ops})
+    if res is not None:
+        kind, sig, what = res
+        small = shrink_session(chk, sess, sig)
+        try:
+            again = judge_session(chk, small)
+            if again is not None and again[1] == sig:
+                what = again[2]
+        except core.LeanError:
+            raise
+        except Exception:
+            pass
+        chk.fail(kind, sig, what, {"session": small})
+
+
+# ------------------------------------------------------------------------------------------------
 # DensityMatrix.apply_loss
 # ------------------------------------------------------------------------------------------------
 def gen_dm_case(rng):
@@ -515,8 +950,19 @@ def gen_dm_case(rng):
     modes = sorted(rng.sample(range(m), rng.randint(1, m)))
     p = rng.choice([Fraction(0), Fraction(1), Fraction(9, 25), Fraction(16, 25), Fraction(1, 2), Fraction(1, 3),
                     Fraction(25, 169), Fraction(7, 10)])
-    return {"m": m, "kind": kind, "states": states, "weights": weights, "modes": modes,
+    case = {"m": m, "kind": kind, "states": states, "weights": weights, "modes": modes,
             "p": core.rat(p), "as_int": len(modes) == 1 and rng.random() < 0.5}
+    if rng.random() < 0.3:      # further losses applied to the same DensityMatrix object
+        case["then"] = [{"modes": sorted(rng.sample(range(m), rng.randint(1, m))),
+                         "p": core.rat(rng.choice([Fraction(0), Fraction(1), Fraction(9, 25), Fraction(1, 2),
+                                                   Fraction(1, 3), Fraction(144, 169)]))}
+                        for _ in range(rng.randint(1, 2))]
+    return case
+
+
+def dm_steps(case):
+    """[(modes, p as Fraction)] in the order they are applied"""
+    return [(case["modes"], Fraction(case["p"]))] + [(t["modes"], Fraction(t["p"])) for t in case.get("then", [])]
 
 
 def dm_observe(case):
@@ -539,6 +985,8 @@ def dm_observe(case):
     before = {inv[i]: float(d0[i, i].real) for i in inv if d0[i, i] != 0}
     p = float(Fraction(case["p"]))
     dm.apply_loss(case["modes"][0] if case["as_int"] else list(case["modes"]), p)
+    for modes, q in dm_steps(case)[1:]:
+        dm.apply_loss(list(modes), float(q))
     d1 = dm.mat.toarray()
     after = {inv[i]: float(d1[i, i].real) for i in inv if abs(d1[i, i]) > 0}
     herm = float(np.max(np.abs(d1 - d1.conj().T))) if d1.size else 0.0
@@ -549,12 +997,12 @@ def lc_reference(case, before):
     """the same loss through LC components (real code), mixture over the diagonal of the input"""
     import perceval as pcvl
     from perceval.components import LC
-    p = float(Fraction(case["p"]))
     out = {}
     for s, w in before.items():
         proc = pcvl.Processor("SLOS", case["m"])
-        for md in case["modes"]:
-            proc.add(md, LC(p))
+        for modes, q in dm_steps(case):
+            for md in modes:
+                proc.add(md, LC(float(q)))
         proc.min_detected_photons_filter(0)
         proc.with_input(pcvl.BasicState(list(s)))
         for k, v in bsd_to_dict(proc.probs(precision=0)["results"]).items():
@@ -568,17 +1016,23 @@ def handle_dm(chk, case):
     chk.branch("dm-apply-loss")
     if len(case["modes"]) > 1:
         chk.branch("dm-several-modes")
+    if case.get("then"):
+        chk.branch("dm-repeated-loss")
     before, after, p, herm = dm_observe(case)
     diag = [[list(k), core.rat(v)] for k, v in sorted(before.items())]
     cur = diag
-    for md in case["modes"]:
-        rep = chk.lean.ask({"op": "dmloss", "mode": md, "p": core.rat(p), "diag": cur})
-        if "err" in rep:
-            chk.fail("broken", "dm-model-rejects", f"the model rejects a density-matrix case ({rep['err']})", {"dm": case})
-            return
-        cur = rep["diag"]
+    for modes, q in dm_steps(case):
+        for md in modes:
+            # the float the real code received (exact), so that the model sees the same number
+            rep = chk.lean.ask({"op": "dmloss", "mode": md, "p": core.rat(float(q)), "diag": cur})
+            if "err" in rep:
+                chk.fail("broken", "dm-model-rejects", f"the model rejects a density-matrix case ({rep['err']})",
+                         {"dm": case})
+                return
+            cur = rep["diag"]
     exact = {tuple(k): Fraction(v) for k, v in cur}
-    chk.case(("dm", case["m"], case["kind"], tuple(case["modes"]), case["p"], tuple(map(tuple, case["states"]))),
+    chk.case(("dm", case["m"], case["kind"], tuple(case["modes"]), case["p"], tuple(map(tuple, case["states"])),
+              json.dumps(case.get("then", []))),
              nontrivial=any(s[md] >= 1 for s in case["states"] for md in case["modes"]) and case["p"] not in ("0", "1"),
              sample=None)
     bad = dist_close(after, exact)
@@ -589,7 +1043,7 @@ def handle_dm(chk, case):
         rbad = dist_close(after, {k: Fraction(*v.as_integer_ratio()) for k, v in ref.items()}, 1e-7)
         if rbad or abs(tr - sum(before.values())) > 1e-7:
             chk.fail("violation", "dm-loss-differs-from-lc",
-                     f"DensityMatrix.apply_loss(modes={case['modes']}, p={p}) gives a diagonal differing from the LC "
+                     f"DensityMatrix.apply_loss {[(m_, float(q_)) for m_, q_ in dm_steps(case)]} gives a diagonal differing from the LC "
                      f"simulation of the same loss by {rbad:.3g} (trace {tr!r})", {"dm": case})
         else:
             chk.fail("broken", "dm-model-vs-code", f"model and DensityMatrix.apply_loss disagree by {bad:.3g}",
@@ -649,6 +1103,8 @@ def handle_thinning(chk):
 # ------------------------------------------------------------------------------------------------
 def load_corpus():
     out = []
+    if os.environ.get("VERIF_C07_NO_CORPUS"):      # development aid: what does the generator find on its own?
+        return out
     for p in sorted(glob.glob(os.path.join(core.VERIF, "corpus", "C07", "*.json"))):
         out.append(json.load(open(p)))
     return out
@@ -683,7 +1139,13 @@ def run(chk: core.Check):
     ]
     chk.required_branches = ["perm-branch", "adjacent-branch", "perm-after-earlier-channel", "two-channels-same-mode",
                              "loss-0", "loss-1", "via-processor", "via-list", "photon-filter", "rejected",
-                             "dm-apply-loss", "dm-several-modes", "layer-choice"]
+                             "dm-apply-loss", "dm-several-modes", "dm-repeated-loss", "layer-choice",
+                             "session-loss-parameter-changed-processor",
+                             "session-loss-parameter-changed-set-circuit-same-list",
+                             "session-phase-parameter-changed", "session-shared-loss-parameter",
+                             "session-processor-add-after-query", "session-list-edited-in-place",
+                             "session-filter-changed", "session-input-changed",
+                             "session-out-of-range-loss-rejected", "session-repeated-query"]
     chk.lean = core.LeanDriver("C07")
     rng = chk.rng
     for item in load_corpus():
@@ -698,6 +1160,8 @@ def run(chk: core.Check):
         else:
             prog = gen_program(rng, chk, max_lc=max_lc)
         handle(chk, prog)
+    for i in range(chk.pick(90, 900)):
+        handle_session(chk, gen_session(rng, chk, max_lc=chk.pick(3, 4)))
     for i in range(chk.pick(120, 1200)):
         case = gen_dm_case(rng)
         guarded(chk, "dm-apply-loss", {"dm": case}, handle_dm, chk, case)
@@ -722,6 +1186,8 @@ def guarded(chk, what, replay, fn, *args):
 def replay_item(chk, item):
     if "program" in item:
         handle(chk, item["program"])
+    elif "session" in item:
+        handle_session(chk, item["session"])
     elif "dm" in item:
         guarded(chk, "dm-apply-loss", item, handle_dm, chk, item["dm"])
     elif "layers" in item:
